@@ -291,9 +291,10 @@ func judgeVer(c Case, w *vkit.W) {
 	v := sem.Ver{Major: c.Major, Minor: c.Minor, Patch: c.Patch, PreRelease: string(c.Pre), Build: string(c.Build)}
 	verr := v.Valid()
 	text := v.String()
-	if sem.MaxInputLength != 0 && len(text)+1 > sem.MaxInputLength {
+	if sem.MaxInputLength != 0 && len(text) > sem.MaxInputLength {
 		return // precondition of the statement's link: the text must be parseable at all
 	}
+	tagFits := sem.MaxInputLength == 0 || len(text)+1 <= sem.MaxInputLength
 	back, perr := sem.Parse(text)
 	roundTrips := perr == nil && back == v
 	if (verr == nil) != roundTrips {
@@ -310,7 +311,7 @@ func judgeVer(c Case, w *vkit.W) {
 			w.Fail(c, "valid-error-not-documented", fmt.Sprintf("Ver%+v: Valid() = %v", v, verr))
 		}
 	}
-	if tag, perr := sem.ParseTag(v.StringTag()); (perr == nil && tag == v) != roundTrips {
+	if tag, perr := sem.ParseTag(v.StringTag()); tagFits && (perr == nil && tag == v) != roundTrips {
 		w.Fail(c, "valid-iff-round-trip", fmt.Sprintf("Ver%+v: tag form %q parses to %+v, %v but plain form round-trips=%v", v, v.StringTag(), tag, perr, roundTrips))
 	}
 }
@@ -389,10 +390,17 @@ func TestCheck(t *testing.T) {
 
 	r.Phase("W2: every entry point again right after custom package-level Formatter/Parser functions were installed, used and removed", func() {
 		r.Serial(func(w *vkit.W) {
-			for _, text := range []string{"1.2.3", "v1.2.3", "0.0.0", "v0.0.0-0", "1.2.3-rc.1+build.5", "v10.20.30-alpha.beta+exp.sha.5114f85", "18446744073709551615.0.0", "1.0.0+21AF26D3----117B344092BD", "1.2", "v1.2.3-01", "1.2.3-", "", "x"} {
+			for _, text := range []string{"1.2.3", "v1.2.3", "0.0.0", "v0.0.0-0", "1.2.3-rc.1+build.5", "v10.20.30-alpha.beta+exp.sha.5114f85", "18446744073709551615.0.0", "1.0.0+21AF26D3----117B344092BD", "1.2", "v1.2.3-01", "1.2.3-", "", "x",
+				"1.0.0-099999999999999999999", "1.0.0-0018446744073709551616", "1.0.0-a.000000000000000000000000000001", "1.0.0-018446744073709551615", "1.0.0+099999999999999999999", "1.0.0-99999999999999999999"} {
 				for i := 0; i < 3; i++ {
 					judge(Case{Kind: "text", Text: vkit.B(text), Hooks: true}, w)
 					w.EvalRandom(vkit.Hash64("W2", text, strconv.Itoa(i)), true)
+				}
+			}
+			for _, n := range []int{1016, 1017, 1018, 1019, 1020} { // texts exactly at, just below and just above the default limit
+				for _, v := range []Case{{Kind: "ver", Major: 1, Minor: 2, Patch: 3, Pre: vkit.B(strings.Repeat("a", n))}, {Kind: "ver", Major: 1, Minor: 2, Patch: 3, Build: vkit.B(strings.Repeat("b", n))}, {Kind: "ver", Major: 1, Minor: 2, Patch: 3, Pre: vkit.B(strings.Repeat("a", n/2)), Build: vkit.B(strings.Repeat("b", n-n/2-1))}} {
+					judge(v, w)
+					w.EvalRandom(vkit.Hash64("W2l", strconv.Itoa(n), strconv.Itoa(len(v.Pre)), strconv.Itoa(len(v.Build))), true)
 				}
 			}
 			for _, v := range []Case{{Kind: "ver", Major: 1, Pre: "rc.1", Build: "b"}, {Kind: "ver", Major: 1, Pre: "01"}, {Kind: "ver", Patch: 7, Build: "é"}, {Kind: "ver"}} {
